@@ -4,7 +4,10 @@ pub mod memseq;
 pub mod model;
 pub mod c14;
 pub mod c02;
+pub mod c03;
+pub mod c04;
 pub mod c07;
+pub mod c09;
 pub mod c08;
 pub mod c10;
 pub mod c12;
@@ -53,4 +56,36 @@ pub fn normalise(msg: &str) -> String {
 /// Silence the default panic printer (cases are isolated with catch_unwind and reported as JSON).
 pub fn quiet_panics() {
     std::panic::set_hook(Box::new(|_| {}));
+}
+
+/// Record the case in progress (read by the driver when the process dies on a fatal signal).
+pub fn progress(v: &serde_json::Value) {
+    if let Ok(p) = std::env::var("VH_PROGRESS") {
+        let _ = std::fs::write(p, v.to_string());
+    }
+}
+
+/// Run a future on a fresh multi-thread runtime and tear the runtime down afterwards.  A closed
+/// HybridCache leaves background tasks (and with them every partition file descriptor) alive for as
+/// long as its runtime lives, so monitors that reopen thousands of images use one runtime per open.
+pub fn with_rt<T>(workers: usize, f: impl std::future::Future<Output = T>) -> T {
+    let rt = tokio::runtime::Builder::new_multi_thread().worker_threads(workers).enable_all().build().unwrap();
+    let r = rt.block_on(f);
+    rt.shutdown_background();
+    r
+}
+
+/// Raise the open-file limit as far as the kernel allows (defence in depth for the same reason).
+pub fn raise_nofile() {
+    unsafe {
+        let mut r = libc::rlimit { rlim_cur: 0, rlim_max: 0 };
+        if libc::getrlimit(libc::RLIMIT_NOFILE, &mut r) == 0 {
+            for want in [1_000_000u64, 500_000, 100_000, r.rlim_max] {
+                let n = libc::rlimit { rlim_cur: want, rlim_max: want.max(r.rlim_max) };
+                if libc::setrlimit(libc::RLIMIT_NOFILE, &n) == 0 {
+                    break;
+                }
+            }
+        }
+    }
 }
